@@ -101,6 +101,36 @@ def exact_history_probe(run, tier):
                  f"(truth {S ** 2:.4f}, se {se_v:.4f}), P(|x|<sigma) {p1:.4f} (truth 0.6827, se {se_p:.4f})", **what)
 
 
+def stored_evidence_probe(run, tier):
+    """The mixture weights divide by the evidences stored with the batches: every stored (beta_t, logz_t) pair must be the evidence
+    estimate, at beta_t, of the history that existed when the batch was created - in ESS mode and in dynamic mode with a
+    binding target (where the chosen temperature is strictly below the ESS limit)."""
+    from tempest import Sampler
+    from tempest.state_manager import StateManager
+    for cfg in (dict(clustering=False), dict(clustering=False, volume_variation=0.03), dict(clustering=True, sample="rwm", volume_variation=0.05)):
+        s = Sampler(ens.pt, ens.ll_interior, n_dim=2, n_particles=32, random_state=77, **cfg)
+        s.run(n_total=64, progress=False)
+        h = s.state._history
+        betas = [float(b) for b in h["beta"]]
+        T = len(betas)
+        bad = []
+        for t in range(1, T):
+            if betas[t] == 0.0:
+                continue
+            st = StateManager(2)
+            for k in range(t):
+                st.update_current({"u": h["u"][k], "x": h["x"][k], "logl": h["logl"][k], "beta": betas[k], "logz": float(h["logz"][k]), "iter": k})
+                st.commit_current_to_history()
+            _, lz = st.compute_logw_and_logz(betas[t])
+            if abs(float(lz) - float(h["logz"][t])) > 1e-9 * max(1.0, abs(float(lz))):
+                bad.append((t + 1, betas[t], float(h["logz"][t]), float(lz)))
+        run.case(key=("stored-evidence", str(cfg)), nontrivial=True)
+        if bad:
+            t, b, got, want = bad[0]
+            run.fail("stored-evidence-incoherent", f"{len(bad)} of {T} batches carry an evidence that is not the estimate at their own temperature; "
+                     f"first: iteration {t}, beta={b!r}: stored {got!r}, estimate from the earlier batches {want!r}", cfg=cfg, random_state=77, n_particles=32)
+
+
 def main(tier, seed):
     run = Run(PID, tier, seed)
     run.rule = ("proof obligations (identities tied to the generated code) + validation: seeded ensembles (24 quick / 96 thorough "
@@ -122,6 +152,7 @@ def main(tier, seed):
               allowed_axioms=STDLIB_AXIOMS_REALS)
     try:
         exact_history_probe(run, tier)
+        stored_evidence_probe(run, tier)
         validate(run, tier)
     except Exception:
         import traceback
